@@ -454,3 +454,103 @@ fn run_disc_once(args: &[&str]) -> String {
     out.push_str(&instances_tok(&store.known_services(&svc)));
     out
 }
+
+/// SOCK hex...: the real thing. A SimpleMdnsResponder (its own thread, real sockets, the 9000-byte receive buffer) is started
+/// for a name unique to this case, the datagrams are sent to the mDNS multicast group, and the responder must still answer a
+/// one-shot query for its name afterwards. NOSOCKET when this environment cannot do multicast at all.
+pub fn run_sock(args: &[&str]) -> String {
+    use simple_mdns::conversion_utils::socket_addr_to_srv_and_address;
+    use simple_mdns::sync_discovery::{OneShotMdnsResolver, SimpleMdnsResponder};
+    use std::net::{IpAddr, Ipv4Addr, SocketAddr, UdpSocket};
+    use std::sync::atomic::{AtomicUsize, Ordering};
+    static SEQ: AtomicUsize = AtomicUsize::new(0);
+    // an optional first token R<n> (hexadecimal n): the responder additionally serves n address records one label below its name,
+    // and is first asked for everything at and below that name - a reply of 14 + 22 n bytes or so, larger than a datagram for big n
+    let (extra, args) = match args.first() {
+        Some(t) if t.starts_with('R') => (hex_to_u128(&t[1..]).unwrap_or(0) as u32, &args[1..]),
+        _ => (0, args),
+    };
+    let dgrams: Option<Vec<Vec<u8>>> = args.iter().map(|t| hex_to_bytes(t)).collect();
+    let dgrams = match dgrams {
+        Some(d) => d,
+        None => return "BADCASE".into(),
+    };
+    let seq = SEQ.fetch_add(1, Ordering::SeqCst);
+    // `text` is the name the liveness probe asks for; the bulk records live at and below the separate name `bulk`
+    let text = format!("_v{}x{}._udp.local", std::process::id(), seq);
+    let bulk = format!("_b{}x{}._udp.local", std::process::id(), seq);
+    let name = simple_dns::Name::new_unchecked(&text).into_owned();
+    let bulk_name = simple_dns::Name::new_unchecked(&bulk).into_owned();
+    let mut responder = SimpleMdnsResponder::new(10);
+    let (r1, r2) = socket_addr_to_srv_and_address(&name, SocketAddr::new(IpAddr::V4(Ipv4Addr::new(127, 0, 0, 1)), 8080), 0);
+    responder.add_resource(r1);
+    responder.add_resource(r2);
+    if extra > 0 {
+        responder.add_resource(ResourceRecord::new(
+            bulk_name.clone(),
+            simple_dns::CLASS::IN,
+            10,
+            simple_dns::rdata::RData::A(simple_dns::rdata::A { address: 0x7f00_0002 }),
+        ));
+    }
+    for i in 0..extra {
+        let leaf = format!("h{:05}.{}", i, bulk);
+        responder.add_resource(ResourceRecord::new(
+            simple_dns::Name::new_unchecked(&leaf).into_owned(),
+            simple_dns::CLASS::IN,
+            10,
+            simple_dns::rdata::RData::A(simple_dns::rdata::A { address: 0x0a00_0000 + i }),
+        ));
+    }
+    std::thread::sleep(Duration::from_millis(300));
+    let probe = |text: &str| -> bool {
+        for _ in 0..3 {
+            if let Ok(mut resolver) = OneShotMdnsResolver::new() {
+                resolver.set_query_timeout(Duration::from_millis(600));
+                resolver.set_unicast_response(false);
+                if let Ok(Some(a)) = resolver.query_service_address(text) {
+                    return a == Ipv4Addr::new(127, 0, 0, 1);
+                }
+            }
+        }
+        false
+    };
+    if !probe(&text) {
+        std::mem::forget(responder);
+        return "NOSOCKET".into();
+    }
+    let sock = match UdpSocket::bind("0.0.0.0:0") {
+        Ok(s) => s,
+        Err(_) => return "NOSOCKET".into(),
+    };
+    let mut sent = 0usize;
+    if extra > 0 {
+        let mut q = Packet::new_query(77);
+        q.questions.push(simple_dns::Question::new(
+            bulk_name.clone(),
+            simple_dns::QTYPE::ANY,
+            simple_dns::QCLASS::CLASS(simple_dns::CLASS::IN),
+            false,
+        ));
+        if let Ok(b) = q.build_bytes_vec() {
+            let _ = sock.send_to(&b, "224.0.0.251:5353");
+            std::thread::sleep(Duration::from_millis(400));
+        }
+    }
+    for d in &dgrams {
+        if sock.send_to(d, "224.0.0.251:5353").is_ok() {
+            sent += 1;
+        }
+        if sent % 16 == 0 {
+            std::thread::sleep(Duration::from_millis(5));
+        }
+    }
+    std::thread::sleep(Duration::from_millis(150));
+    let alive = probe(&text);
+    std::mem::forget(responder);
+    if alive {
+        format!("ALIVE {:x}", sent)
+    } else {
+        format!("DEAD {:x}", sent)
+    }
+}
